@@ -53,8 +53,14 @@ func renderCore(p tds.Package) (int, sx.T, bool) {
 		w, _ := tds.VerifWide(t)
 		return fmtToken(w, true), fmtsTree(t.Fmts), true
 	case *tds.RowPackage:
+		if rxMutated {
+			return int(tds.TDS_ROW), sx.L{sx.I(int64(len(t.DataFields)))}, true
+		}
 		return int(tds.TDS_ROW), dataFields(t.DataFields), true
 	case *tds.ParamsPackage:
+		if rxMutated {
+			return int(tds.TDS_PARAMS), sx.L{sx.I(int64(len(t.DataFields)))}, true
+		}
 		return int(tds.TDS_PARAMS), dataFields(t.DataFields), true
 	}
 	return 0, nil, false
@@ -356,8 +362,10 @@ var rxTypes = []asetypes.DataType{asetypes.INT4, asetypes.INT2, asetypes.INT8, a
 	asetypes.INTN, asetypes.FLT8, asetypes.MONEY, asetypes.DATETIME, asetypes.DATE, asetypes.BIT,
 	asetypes.TEXT, asetypes.IMAGE, asetypes.UNITEXT, asetypes.XML}
 
-// the first rxSafe types re-encode to the same bytes whatever the bytes are (needed when the stream is mutated:
-// the harness renders a value by re-encoding it; temporal values and bits are normalised by that)
+// the first rxSafe types re-encode to the same bytes whatever the bytes are. In mutated streams (rxMutated) a mutated type
+// byte can still turn a column into any type, and the harness can only render a value by re-encoding it (the library keeps
+// no raw bytes; temporal values and bits are normalised by that): rows and parameters of mutated streams are therefore
+// rendered by their number of fields only (fn 16 / fn 15) - value fidelity is the business of C04/C06, not of C10.
 const rxSafe = 10
 
 var rxMutated = false
@@ -666,7 +674,15 @@ func GenRx(g *pk.Gen) {
 				cuts = append(cuts, c)
 			}
 		}
-		emitRx(g, 1, 1, 512, Packetise(msg, cuts), "malformed")
+		if g.WantTag("malformed") && !tooManyHangs() {
+			pkts := Packetise(msg, cuts)
+			res, fed := RxRun(1, 1, 512, pkts)
+			var in sx.L
+			for _, p := range pkts[:fed] {
+				in = append(in, p.tree())
+			}
+			g.Out.Case(16, sx.L{sx.I(1), sx.I(1), sx.I(512), in}, res, "malformed")
+		}
 		// the same stream followed by a few more packets (a short one among them): the reader goroutine keeps routing
 		// packets to the channel after a parse error
 		if g.WantTag("malformed-continue") && !tooManyHangs() {
